@@ -1,206 +1,16 @@
-// translator: regenerates coq/Gen/Tables.v from the Go AST of the current pint source tree.
-//
-// It extracts only finite tables (constants, switch tables, composite literals, call arguments) and
-// fails closed: a construct it does not recognise is an error (reported by bin/check as a broken
-// obligation), never a guess.  Standard library only.
+//go:build core
+
 package main
 
 import (
-	"encoding/json"
 	"flag"
 	"fmt"
 	"go/ast"
-	"go/parser"
-	"go/printer"
 	"go/token"
-	"os"
 	"path/filepath"
 	"sort"
-	"strconv"
 	"strings"
 )
-
-var fset = token.NewFileSet()
-
-type pkgFiles struct {
-	dir   string
-	files map[string]*ast.File // base name -> file (non-test)
-	names []string
-}
-
-func loadPkg(dir string) *pkgFiles {
-	ents, err := os.ReadDir(dir)
-	if err != nil {
-		fatal("cannot read %s: %v", dir, err)
-	}
-	p := &pkgFiles{dir: dir, files: map[string]*ast.File{}}
-	for _, e := range ents {
-		n := e.Name()
-		if e.IsDir() || !strings.HasSuffix(n, ".go") || strings.HasSuffix(n, "_test.go") || strings.HasPrefix(n, "zz_verif") {
-			continue
-		}
-		f, err := parser.ParseFile(fset, filepath.Join(dir, n), nil, parser.ParseComments)
-		if err != nil {
-			fatal("parse %s: %v", n, err)
-		}
-		p.files[n] = f
-		p.names = append(p.names, n)
-	}
-	sort.Strings(p.names)
-	return p
-}
-
-func fatal(f string, a ...any) {
-	fmt.Fprintf(os.Stderr, "translator: "+f+"\n", a...)
-	os.Exit(1)
-}
-
-func src(n ast.Node) string {
-	var b strings.Builder
-	_ = printer.Fprint(&b, fset, n)
-	return b.String()
-}
-
-func pos(n ast.Node) string {
-	p := fset.Position(n.Pos())
-	return fmt.Sprintf("%s:%d", filepath.Base(p.Filename), p.Line)
-}
-
-// ------------------------------------------------------------------------------------------------
-// constants
-
-type constTable struct {
-	strs map[string]string // identifier -> string value
-	ints map[string]int64  // identifier -> int value (iota blocks)
-	typ  map[string]string // identifier -> declared type name (iota blocks)
-}
-
-func collectConsts(p *pkgFiles) *constTable {
-	ct := &constTable{strs: map[string]string{}, ints: map[string]int64{}, typ: map[string]string{}}
-	for _, fn := range p.names {
-		for _, d := range p.files[fn].Decls {
-			gd, ok := d.(*ast.GenDecl)
-			if !ok || gd.Tok != token.CONST {
-				continue
-			}
-			curType := ""
-			iotaBlock := false
-			for i, s := range gd.Specs {
-				vs := s.(*ast.ValueSpec)
-				if len(vs.Values) == 1 && len(vs.Names) == 1 {
-					switch v := vs.Values[0].(type) {
-					case *ast.BasicLit:
-						if v.Kind == token.STRING {
-							u, err := strconv.Unquote(v.Value)
-							if err == nil {
-								ct.strs[vs.Names[0].Name] = u
-							}
-						}
-						iotaBlock = false
-					case *ast.Ident:
-						if v.Name == "iota" {
-							iotaBlock = true
-							curType = ""
-							if vs.Type != nil {
-								curType = src(vs.Type)
-							}
-							ct.ints[vs.Names[0].Name] = int64(i)
-							ct.typ[vs.Names[0].Name] = curType
-						} else {
-							iotaBlock = false
-						}
-					default:
-						iotaBlock = false
-					}
-				} else if len(vs.Values) == 0 && iotaBlock && len(vs.Names) == 1 {
-					ct.ints[vs.Names[0].Name] = int64(i)
-					ct.typ[vs.Names[0].Name] = curType
-				}
-			}
-		}
-	}
-	return ct
-}
-
-func findFunc(p *pkgFiles, recv, name string) *ast.FuncDecl {
-	for _, fn := range p.names {
-		for _, d := range p.files[fn].Decls {
-			fd, ok := d.(*ast.FuncDecl)
-			if !ok || fd.Name.Name != name {
-				continue
-			}
-			r := ""
-			if fd.Recv != nil && len(fd.Recv.List) == 1 {
-				r = strings.TrimPrefix(src(fd.Recv.List[0].Type), "*")
-			}
-			if r == recv {
-				return fd
-			}
-		}
-	}
-	return nil
-}
-
-func findVarSlice(p *pkgFiles, name string) []ast.Expr {
-	for _, fn := range p.names {
-		for _, d := range p.files[fn].Decls {
-			gd, ok := d.(*ast.GenDecl)
-			if !ok || gd.Tok != token.VAR {
-				continue
-			}
-			for _, s := range gd.Specs {
-				vs := s.(*ast.ValueSpec)
-				for i, n := range vs.Names {
-					if n.Name == name && i < len(vs.Values) {
-						if cl, ok := vs.Values[i].(*ast.CompositeLit); ok {
-							return cl.Elts
-						}
-					}
-				}
-			}
-		}
-	}
-	fatal("variable %s not found as a slice literal in %s", name, p.dir)
-	return nil
-}
-
-// ------------------------------------------------------------------------------------------------
-// Coq printing
-
-func cs(s string) string {
-	for i := 0; i < len(s); i++ {
-		if s[i] < 0x20 || s[i] > 0x7e {
-			fatal("non printable byte in table string %q", s)
-		}
-	}
-	return `"` + strings.ReplaceAll(s, `"`, `""`) + `"`
-}
-
-func clist(xs []string) string { return "[" + strings.Join(xs, "; ") + "]" }
-
-func cstrs(xs []string) string {
-	o := make([]string, len(xs))
-	for i, x := range xs {
-		o[i] = cs(x)
-	}
-	return clist(o)
-}
-
-func cbool(b bool) string {
-	if b {
-		return "true"
-	}
-	return "false"
-}
-
-type out struct {
-	b    strings.Builder
-	json map[string]any
-}
-
-func (o *out) def(name, typ, body string) {
-	fmt.Fprintf(&o.b, "Definition %s : %s :=\n  %s.\n\n", name, typ, body)
-}
 
 // ------------------------------------------------------------------------------------------------
 
@@ -210,9 +20,7 @@ func main() {
 	jsonPath := flag.String("json", "", "output json")
 	flag.Parse()
 
-	o := &out{json: map[string]any{}}
-	o.b.WriteString("(* GENERATED by /verif/translator from the Go sources of the current pint tree. Do not edit. *)\n")
-	o.b.WriteString("From Coq Require Import List String ZArith Bool.\nImport ListNotations.\nOpen Scope string_scope.\n\n")
+	o := newOut("core tables")
 
 	checksPkg := loadPkg(filepath.Join(*srcDir, "internal", "checks"))
 	configPkg := loadPkg(filepath.Join(*srcDir, "internal", "config"))
@@ -227,13 +35,7 @@ func main() {
 	genComments(o, commentsPkg)
 	genDropped(o, *srcDir)
 
-	if err := os.WriteFile(*outPath, []byte(o.b.String()), 0o644); err != nil {
-		fatal("%v", err)
-	}
-	if *jsonPath != "" {
-		b, _ := json.MarshalIndent(o.json, "", " ")
-		_ = os.WriteFile(*jsonPath, b, 0o644)
-	}
+	o.write(*outPath, *jsonPath)
 }
 
 // ------------------------------------------------------------------------------------------------
@@ -308,58 +110,8 @@ func genSeverity(o *out, p *pkgFiles) {
 	// exit-status threshold comparisons in cmd/pint: extracted as source text of the guarding conditions
 }
 
-func onlySwitch(fd *ast.FuncDecl) *ast.SwitchStmt {
-	var sw *ast.SwitchStmt
-	for _, st := range fd.Body.List {
-		if s, ok := st.(*ast.SwitchStmt); ok {
-			if sw != nil {
-				fatal("%s: more than one switch", fd.Name.Name)
-			}
-			sw = s
-		}
-	}
-	if sw == nil {
-		fatal("%s: no switch statement", fd.Name.Name)
-	}
-	return sw
-}
-
-func onlyReturn(cc *ast.CaseClause) *ast.ReturnStmt {
-	if len(cc.Body) != 1 {
-		fatal("case at %s: expected a single return", pos(cc))
-	}
-	r, ok := cc.Body[0].(*ast.ReturnStmt)
-	if !ok {
-		fatal("case at %s: expected a return", pos(cc))
-	}
-	return r
-}
-
-func strLit(e ast.Expr) string {
-	bl, ok := e.(*ast.BasicLit)
-	if !ok || bl.Kind != token.STRING {
-		fatal("expected string literal at %s, got %s", pos(e), src(e))
-	}
-	u, err := strconv.Unquote(bl.Value)
-	if err != nil {
-		fatal("bad literal %s", bl.Value)
-	}
-	return u
-}
-
 // ------------------------------------------------------------------------------------------------
 // C08: check names, registrations, reporter/meta per check type
-
-func selName(e ast.Expr) string {
-	switch v := e.(type) {
-	case *ast.Ident:
-		return v.Name
-	case *ast.SelectorExpr:
-		return v.Sel.Name
-	}
-	fatal("expected identifier at %s, got %s", pos(e), src(e))
-	return ""
-}
 
 func genChecks(o *out, checksPkg, configPkg, discPkg *pkgFiles) {
 	ct := collectConsts(checksPkg)
@@ -634,17 +386,6 @@ func genChecks(o *out, checksPkg, configPkg, discPkg *pkgFiles) {
 	o.json["registrations"] = regs
 }
 
-func boolLit(e ast.Expr) bool {
-	switch src(e) {
-	case "true":
-		return true
-	case "false":
-		return false
-	}
-	fatal("expected bool literal at %s", pos(e))
-	return false
-}
-
 // ------------------------------------------------------------------------------------------------
 // C03/C09: change states
 
@@ -764,15 +505,6 @@ func genErrors(o *out, checksPkg, promapiPkg *pkgFiles) {
 	o.def("is_unavailable_src", "string", cs(oneLine(src(fd.Body))))
 }
 
-func oneLine(s string) string {
-	s = strings.ReplaceAll(s, "\n", " ")
-	s = strings.ReplaceAll(s, "\t", " ")
-	for strings.Contains(s, "  ") {
-		s = strings.ReplaceAll(s, "  ", " ")
-	}
-	return s
-}
-
 // ------------------------------------------------------------------------------------------------
 // C07/C10: comment types
 
@@ -849,11 +581,3 @@ func genDropped(o *out, srcDir string) {
 }
 
 func isMapOrTypeAssert(e ast.Expr) bool { return false }
-
-func argsSrc(ce *ast.CallExpr) string {
-	var a []string
-	for _, x := range ce.Args {
-		a = append(a, src(x))
-	}
-	return strings.Join(a, ", ")
-}
